@@ -562,6 +562,20 @@ impl<'a> Machine<'a> {
                     _ => undet("LBOUND/UBOUND of unallocated array"),
                 }
             }
+            n if n.starts_with("ZU") => {
+                // a subscripted name declared nowhere: zero of the name's type (subscripts 0..2 only)
+                for a in args {
+                    self.eval(a, path)?;
+                }
+                self.feat("undeclared-subscripted-name");
+                let ty = match up.chars().last() {
+                    Some('%') => Ty::Int,
+                    Some('&') => Ty::Long,
+                    Some('!') => Ty::Single,
+                    _ => Ty::Double,
+                };
+                Ok(Val::N(Num::whole(ty, 0)))
+            }
             _ => undet("built-in outside the reference semantics"),
         }
     }
